@@ -106,9 +106,16 @@ struct TSolver : public squids::SQuIDS {
   TSolver(TSolver&& o) : squids::SQuIDS(std::move(o)), P(o.P), mask(o.mask), log(o.log) {}
   TSolver& operator=(TSolver&& o) { squids::SQuIDS::operator=(std::move(o)); P = o.P; mask = o.mask; log = o.log; return *this; }
   void reinit(const Problem& p) { P = &p; ini(p.nx, p.d, p.nr, p.ns, p.t_ini); log.reset(p.nx, p.nr, p.ns); }
-  void set_mask(unsigned m) {
+  void set_one(unsigned bit, bool on) {
+    switch (bit) { case M_COH: Set_CoherentRhoTerms(on); break; case M_NC: Set_NonCoherentRhoTerms(on); break; case M_OTHER: Set_OtherRhoTerms(on); break; case M_GS: Set_GammaScalarTerms(on); break; default: Set_OtherScalarTerms(on); break; }
+    if (on) mask |= bit; else mask &= ~bit;
+  }
+  // the five setters are called in the order given by `perm` (an index into the 120 permutations): the result must not depend on it
+  void set_mask(unsigned m, unsigned perm = 0) {
+    unsigned bits[5] = {M_COH, M_NC, M_OTHER, M_GS, M_OS};
+    for (int i = 0; i < 5; i++) { unsigned r = perm % (5 - i); perm /= (5 - i); std::swap(bits[i], bits[i + r]); }
+    for (int i = 0; i < 5; i++) set_one(bits[i], (m & bits[i]) != 0);
     mask = m;
-    Set_CoherentRhoTerms(m & M_COH); Set_NonCoherentRhoTerms(m & M_NC); Set_OtherRhoTerms(m & M_OTHER); Set_GammaScalarTerms(m & M_GS); Set_OtherScalarTerms(m & M_OS);
   }
   SU_vector poison() const { SU_vector v(P->d); for (int k = 0; k < P->d * P->d; k++) v[k] = 1e6 * (1 + k); return v; }
   SU_vector from(const Mat& M) const { std::vector<ld> c = fromM(M); SU_vector v(P->d); for (int k = 0; k < P->d * P->d; k++) v[k] = (double)c[k]; return v; }
